@@ -867,6 +867,16 @@ func (env *SpecEnv) call(x *CExpr) (SVal, error) {
 			return SVal{}, err
 		}
 		return SVal{T: app(e.errAsPred(t), a.T), Typ: boolT, Sort: "Bool"}, nil
+	case "errorsAsVal": // errorsAsVal(err, T): what errors.As stores into a target of type T on success
+		a, err := argv(0)
+		if err != nil {
+			return SVal{}, err
+		}
+		t, err := e.evalType(x.Args[1].String(), env.pkg)
+		if err != nil {
+			return SVal{}, err
+		}
+		return SVal{T: app(e.errAsVal(t), a.T), Typ: t, Sort: W.sortOf(t)}, nil
 	case "rangeidx": // position of key k in the enumeration of the map iterated by this loop
 		if env.loop == nil {
 			return SVal{}, fmt.Errorf("rangeidx outside loop invariant")
@@ -1365,7 +1375,6 @@ func (e *Enc) specDefs() string {
 	}
 	return strings.Join(out, "\n")
 }
-
 
 // rangeFor: the exact map-range model of the invariant's own loop or, if that loop does
 // not iterate a map, of the innermost enclosing loop that does.
